@@ -16,6 +16,7 @@ import common
 from common import Failure, cZ, cnat, clist
 import impl
 
+EXTRA_PROPS = ['C03C08']  # composition theorems printed and counted with this property
 EXPLANATION = ('Theorems (Props/C03.v): in the model of the executor/pipeline a failure of ANY step of the validation block (act '
                'parse, symbol validation, pre-sds validation of any instruction of any phase, incl. the last of [cleanup]), or of '
                'reading/parsing the whole file, leaves no main step, no sandbox and no started action; the symbol command invokes only '
